@@ -382,6 +382,16 @@ spec("C16",
                   "Blend is only checked where it must equal the union (radius 0 or shapes further apart than the radius)"],
      )
 
+spec("C18",
+     cmd="c18", count=dict(quick=3000, thorough=120000),
+     vo_targets=["props/C18.vo"],
+     level="proof",
+     rule="event sequences of 3..14 calls alternating Canvas2 / Canvas3: immediate-mode interact (cursor absent / hovering / dragging, pan or rotate, with and without scroll, size changes), begin_drag / drag / end_drag (idle and active), zoom about a cursor position or the centre, resize; image sizes 1..2000 (powers of two, tiny, arbitrary), cursor positions on and off screen, scroll 0 / multiples of 100 / arbitrary / saturating (scale -> 0 or infinity); the f32 instance of the Coq model must reproduce centre, scale, yaw, pitch and every returned flag bit for bit after each event (centre and flags are not compared once yaw or pitch has been non-zero, nothing once a component is infinite or NaN); the oracle checks on the implementation: flag == (view changed), calls without a flag change nothing, a pure zoom keeps the model point under the cursor, a zoom-free pan drag keeps the grabbed point under the cursor, rotate drags leave centre and scale alone, pitch in [0,pi], |yaw| < 2pi, transform_point = T*Rz*Rx*S in f64; distinct_nontrivial = distinct event sequences",
+     classify=classify_default,
+     assumptions=["exp2f / fmodf / sinf / cosf come from the libm oracle (glibc), as in the implementation",
+                  "nalgebra's homogeneous matrix products are modelled with their structurally-zero terms dropped (exact while every component is finite)"],
+     )
+
 spec("C19",
      cmd="c19", count=dict(quick=300, thorough=4000),
      vo_targets=["props/C19.vo"],
